@@ -90,7 +90,7 @@ class SonarResultSet(ResultSet):
     @cache
     def from_json(cls, json_file: str | Path) -> Self:
         try:
-            with open(json_file, "r", encoding="utf-8") as file:
+            with open(json_file, "r", encoding="utf-8-sig") as file:
                 data = json.load(file)
 
             result_set = cls()
